@@ -247,6 +247,9 @@ static void op_kmeans(void) {
   int seed = init < 2 ? vx_choose("seed", H_TSAN ? 1 : vx_thorough() ? 3 : 2) : 0;
   double scale = vx_choose("scale", vx_thorough() || n <= 8 ? 2 : 1) ? 1e-4 : 1.0;   /* quick: the small-scale copy only for n <= 8 */
   matrix *m = gen(fam, n, d, scale); const char *tc = thcls(n, th); char key[200], fn[48];
+  /* a common location far from the origin (clusters are translation invariant; a stopping rule or distance that is relative
+   * to the coordinates is not): unit-scale data only, quick tier for n <= 8 */
+  if (scale == 1.0 && (vx_thorough() || n <= 8) && vx_choose("offset", 2)) for (size_t i = 0; i < m->row; i++) for (size_t j = 0; j < m->col; j++) m->data[i][j] += 2e4;
   snprintf(fn, sizeof fn, "KMeans:%s-init", INIT[init]);
   uivector *l1, *lt; matrix *c1, *ct; initUIVector(&l1); initUIVector(&lt); initMatrix(&c1); initMatrix(&ct);
   snprintf(g_tick, sizeof g_tick, "nonterm|%s|k=%d", fn, k);
